@@ -111,6 +111,12 @@ CHECKS["C12"] = _core("C12", "programs with one fault planted under 0..4 nested 
                       "compared with the error's trace and with the lines quoted in the rendered message",
                       "DESIGN.md §5 C12", "Compile-error positions are checked in C10's block-prefix part.")
 
+CHECKS["C14"] = _core("C14", "every / sampled sequence of 2, 3 and 6 container actions over a 100-action alphabet on three aliasable "
+                      "variables (whole visible state printed after each action) and the equality / ordering / map-key / sort / "
+                      "map-order law families; additionally TLC model-checks the machine itself as a transition system "
+                      "(MC_KotoCore.tla: OneEntryPerKey, NoDangling in every configuration, MapKeepsInsertionOrder and "
+                      "StoreOnlyGrows on every step)", "DESIGN.md §5 C14",
+                      "The machine's store is the abstract heap (DESIGN's Heap.tla is realised as KotoCore's store plus MC_KotoCore).")
 CHECKS["C18"] = dict(
     category="model_checking",
     text="Modules.tla specifies import/export/caching as a state machine (cache absent/in-progress/loaded, exports, log). TLC "
@@ -181,7 +187,7 @@ def main():
              "kind_free_text": "TLA+ state machine of one embedding instance; TLC enumerates operation histories that are replayed on koto::Koto"},
             {"name": "blocks", "path": "spec/Blocks.tla", "serves_properties": ["C10"],
              "kind_free_text": "TLA+ model of block-structured text typed line by line; TLC enumerates typed prefixes"},
-            {"name": "kotocore", "path": "spec/KotoCore.tla", "serves_properties": ["C01", "C02", "C03", "C04", "C10", "C12"],
+            {"name": "kotocore", "path": "spec/KotoCore.tla", "serves_properties": ["C01", "C02", "C03", "C04", "C10", "C12", "C14", "C18"],
              "kind_free_text": "TLA+ abstract machine of the Koto language executed by TLC; predictions replayed into the implementation by harness/kv"},
         ],
         "checks": checks,
